@@ -136,11 +136,15 @@ claim("C01", "E2+E1",
       "of a hash-ordered value need an audit entry; a last-wins insert into a map with colliding keys is only detected for the re-keyed-by-value collect form.",
       "DESIGN.md section 4")
 
-claim("C18", "E2",
-      "static analysis: the C01 hash-order taint analysis restricted to the name flow (name-id allocation, name table assembly, fvar/STAT references, fea-rs name handling)",
-      "Static decision of ONE clause of C18: the name table and the name ids other tables refer to do not depend on anything but the source, i.e. "
-      "not on per-process hash iteration order. Referential integrity of name ids and the documented fallback chain are value-level and NOT decided.",
-      "Trusted: as for C01; scope = functions of fontir::ir::static_metadata, fontbe::{name,fvar,stat}, fea_rs::compile::{output,tables::name,tables::stat}, FeatureCompilationWork.",
+claim("C18", "E2+E5",
+      "static analysis: the C01 hash-order taint analysis restricted to the name flow (name-id allocation, name table assembly, fvar/STAT references, fea-rs name handling); forward data-flow from the name-id minting calls to output-table fields compared with the fields the remap function writes (sibling agreement)",
+      "Static decision of TWO clauses of C18: (H) the name table and the name ids other tables refer to do not depend on anything but the source, i.e. "
+      "not on per-process hash iteration order; (T4) every output-table field that receives a name id minted by the feature compiler (featureNames, "
+      "cvParameters, sizemenuname, STAT names) is adjusted when those ids are shifted past the ids the font already uses - a forgotten field refers to "
+      "a record that is not there or to someone else's (found: the size feature's menu name pointed at the fvar axis name; repaired). Referential "
+      "integrity of name ids in general and the documented fallback chain are value-level and NOT decided.",
+      "Trusted: as for C01; scope = functions of fontir::ir::static_metadata, fontbe::{name,fvar,stat}, fea_rs::compile::{output,tables::name,tables::stat}, FeatureCompilationWork. "
+      "T4 sees a minted id only where it is stored through a struct literal or field assignment in fea-rs (ids passed to write-fonts constructors are not followed).",
       "DESIGN.md section 4.3")
 
 
